@@ -61,6 +61,7 @@ def arm_on(s, style, case):
     db = _parse(text, True)
     if db.allow_properties is not True:
         out.append(Viol('c15:on:flag', f'database parsed with allow_properties=True has allow_properties={db.allow_properties!r}', case, size=len(text)))
+    out += other_routes(text, extract(db), case)
     vs, d1 = c02.check_db(db, case, s, True)
     out += [Viol('c15:on:' + v.bucket, v.message, case, finding=v.finding, size=len(text)) for v in vs]
     if d1 is not None and has_props(s):
@@ -69,6 +70,39 @@ def arm_on(s, style, case):
                 if f'{k}:' not in d1:
                     out.append(Viol('c15:on:not-rendered', f'property {k!r} of table {t.name!r} is not rendered with the option on', case, size=len(text)))
     return out, text
+
+
+def other_routes(text, want, case):
+    """The option is honoured on every source route of the constructor (string, Path, open text file)."""
+    import os
+    import tempfile
+    from pathlib import Path
+    from pydbml import PyDBML
+    out = []
+    fd, path = tempfile.mkstemp(prefix='pbt-c15-', suffix='.dbml')
+    try:
+        with os.fdopen(fd, 'w', encoding='utf8', newline='') as fh:
+            fh.write(text)
+        for label, thunk in (('PyDBML(str)', lambda: PyDBML(text, allow_properties=True)),
+                             ('PyDBML(Path)', lambda: PyDBML(Path(path), allow_properties=True)),
+                             ('PyDBML(file)', lambda: _with_file(path, lambda fh: PyDBML(fh, allow_properties=True)))):
+            try:
+                db = thunk()
+            except Exception as e:  # noqa
+                out.append(Viol(f'c15:on:route:{label}:raise', f'{label} with allow_properties=True raised {type(e).__name__}: {str(e)[:120]}', case, size=len(text)))
+                continue
+            if db.allow_properties is not True:
+                out.append(Viol(f'c15:on:route:{label}:flag', f'{label} with allow_properties=True gives allow_properties={db.allow_properties!r}', case, size=len(text)))
+            elif extract(db) != want:
+                out.append(Viol(f'c15:on:route:{label}:content', f'{label} with allow_properties=True parses the properties differently', case, size=len(text)))
+    finally:
+        os.unlink(path)
+    return out
+
+
+def _with_file(path, fn):
+    with open(path, encoding='utf8', newline='') as fh:
+        return fn(fh)
 
 
 def arm_off(s, style, case):
